@@ -51,7 +51,9 @@ ASSUMPTIONS = [
 CL_D20 = "D20_gcxs_zero_extent"
 CL_SCIPY = "scipy_operand_rejected"
 CL_SHORTCUT = "zero_size_shortcut_ignores_return_type"
-CL_CSCND = "D8_csc_ndarray_sparse_rows_unsorted"
+CL_CSCND = "csc_ndarray_sparse_rows_unsorted"
+CL_CSCCOUNT = "csc_ndarray_sparse_count_overestimates_on_cancellation"
+CL_EINSUM_ZEROS = "einsum_result_stores_explicit_zeros"
 
 PER_CASE_TIMEOUT = 15.0     # vlib allows 4x this per case (see run_impl): 60 s; JIT compilation of a kernel chain under load takes 10-25 s
 
@@ -159,10 +161,10 @@ def impl_api(case):
     out["r"] = vlib.plain(r)
     out["follow"] = []
     # downstream use of a 2-d sparse result: column slices (D8: unsorted rows make them wrong)
-    if isinstance(r, sparse.SparseArray) and r.ndim == 2 and isinstance(e, np.ndarray) and e.shape == r.shape \
+    if isinstance(r, sparse.GCXS) and r.ndim == 2 and isinstance(e, np.ndarray) and e.shape == r.shape \
             and case.get("follow", True):
         p = r.shape[1]
-        for lo, hi in ((1, p), (0, p - 1), (1, 2), (1, 3)):
+        for lo, hi in ((1, p), (0, p - 1), (1, 2)):
             if 0 <= lo < hi <= p and (lo, hi) != (0, p):
                 try:
                     s = r[:, lo:hi]
@@ -343,10 +345,10 @@ def with_kind(rng, spec, kind):
     return s, kind
 
 
-def kernel_cases(tier, rng):
+def kernel_cases(tier, rng, budget=1):
     cases = []
     ext = [0, 1, 2, 3, 4]
-    n_main = 260 if tier == "quick" else 2500
+    n_main = (260 if tier == "quick" else 2500) * budget
     shapes = [(m, n, p) for m in ext for n in ext for p in ext]
     for t in range(n_main):
         m, n, p = shapes[t % len(shapes)] if t < 2 * len(shapes) else (rng.choice(ext), rng.choice(ext), rng.choice(ext))
@@ -367,15 +369,15 @@ def kernel_cases(tier, rng):
             B2 = [list(r) for r in B]
             B2[0][0] = 0          # first touched column of every row is then not column 0
             cases.append({"k": "csr_csr", "m": m, "n": n, "p": p, "dt": ["int64", "int64"], "A": csr_of(A, n), "B": csr_of(B2, p)})
-    # _dot_coo_ndarray (fuelled model).  out_cols = 0 with nnz > 0 never returns (D3): very few of those
+    # _dot_coo_ndarray (fuelled model), output widths 0..4
     n_cn = 60 if tier == "quick" else 600
     hangs = 0
     for t in range(n_cn):
         m, n, p = rng.choice(ext[1:]), rng.choice(ext[1:]), rng.choice(ext)
         A = rand_matrix(rng, m, n)
         nnz = sum(1 for r in A for v in r if v)
-        if p == 0 and nnz > 0:
-            if hangs >= (1 if tier == "quick" else 3):
+        if p == 0 and nnz > 0:       # the input class of the repaired D3 (the loop made no progress): a few of them
+            if hangs >= (4 if tier == "quick" else 12):
                 p = 1
             else:
                 hangs += 1
@@ -395,6 +397,9 @@ def kernel_cases(tier, rng):
         m, n, p = rng.choice(ext[1:]), rng.choice(ext[1:]), rng.choice(ext[1:])
         A, B = (cancelling_pair(rng, m, n, p) if t % 4 == 0 else (rand_matrix(rng, m, n), rand_matrix(rng, n, p)))
         c = {"k": k, "m": m, "n": n, "p": p, "dt": ["int64", "int64"], "Ad": [v for r in A for v in r], "Bd": [v for r in B for v in r]}
+        if k == "csc_nd_sparse":
+            At = [[A[i][j] for i in range(m)] for j in range(n)]
+            c["Ac"] = csr_of(At, m)
         if k == "coo_nd_sparse":
             rows, cols, data = [], [], []
             for i in range(m):
@@ -410,7 +415,7 @@ KINDS2 = ["coo", "g0", "g1", "csr", "csc", "nd"]
 RTS = [None, "coo", "gcxs", "nd"]
 
 
-def api_cases(tier, rng):
+def api_cases(tier, rng, budget=1):
     """list of API-level cases (dicts understood by impl_api) with bookkeeping keys:
     flags / kindreq for the judge, tags for the coverage histogram"""
     cases = []
@@ -427,20 +432,26 @@ def api_cases(tier, rng):
     shapes = [(m, n, p) for m in ext for n in ext for p in ext]
     combos = [(ka, kb, rt) for ka in KINDS2 for kb in KINDS2 for rt in RTS if not (ka == "nd" and kb == "nd")]
     rng.shuffle(combos)
-    reps = 1 if quick else 8
+    reps = (1 if quick else 8) * budget
     t = 0
     for _ in range(reps):
         for (ka, kb, rt) in combos:
             m, n, p = shapes[t % len(shapes)]
             t += 1
-            # COO x ndarray with p == 0 and stored entries never returns (D3): keep those to a handful
             A, B = (cancelling_pair(rng, m, n, p) if t % 4 == 0 else (rand_matrix(rng, m, n), rand_matrix(rng, n, p)))
             add("tensordot", mat_spec(A, m, n), ka, mat_spec(B, n, p), kb, rt=rt, axes=[[1], [0]], tag="tensordot2d")
+    # forced cancellations on every path whose kernel produces a sparse result (pre-sized buffers)
+    canc = [(ka, kb, rt) for (ka, kb, rt) in combos if rt in ("coo", "gcxs") or (ka != "nd" and kb != "nd")]
+    rng.shuffle(canc)
+    for (ka, kb, rt) in (canc[:60] if quick else canc * 3):
+        m, n, p = rng.choice([2, 3]), rng.choice([2, 3]), rng.choice([2, 3])
+        A, B = cancelling_pair(rng, m, n, p)
+        add("tensordot", mat_spec(A, m, n), ka, mat_spec(B, n, p), kb, rt=rt, axes=[[1], [0]], tag="cancel2d")
     # dot / matmul / @ on 2-d, all kind pairs
     for (ka, kb) in itertools.product(KINDS2, KINDS2):
         if ka == "nd" and kb == "nd":
             continue
-        for op in ("dot", "matmul", "at"):
+        for op in (("dot", "matmul", "at") if not quick else (rng.choice(["dot", "matmul"]), "at")):
             if op == "at" and ka in ("csr", "csc"):
                 continue        # scipy's own __matmul__ runs first: not this library's dispatch
             m, n, p = rng.choice([1, 2, 3]), rng.choice([1, 2, 3]), rng.choice([1, 2, 3, 4])
@@ -448,16 +459,13 @@ def api_cases(tier, rng):
             add(op, mat_spec(A, m, n), ka, mat_spec(B, n, p), kb, tag=op + "2d")
     # zero extents through dot/matmul (no return type), sparse kinds only on the left + ndarray right etc.
     zshapes = [(0, 2, 3), (2, 0, 3), (2, 3, 0), (0, 0, 2), (0, 2, 0), (2, 0, 0), (0, 0, 0)]
-    d3 = 0
     for (m, n, p) in zshapes:
         for (ka, kb) in itertools.product(["coo", "g0", "g1", "nd"], ["coo", "g0", "g1", "nd"]):
             if ka == "nd" and kb == "nd":
                 continue
+            if quick and rng.random() < 0.45:
+                continue
             A, B = rand_matrix(rng, m, n, 1.0), rand_matrix(rng, n, p, 1.0)
-            if ka == "coo" and kb == "nd" and p == 0 and m * n > 0:
-                d3 += 1
-                if d3 > (2 if quick else 6):
-                    continue
             add(rng.choice(["dot", "matmul"]), mat_spec(A, m, n), ka, mat_spec(B, n, p), kb, tag="zero_extent2d")
     # ---- 1-d operands: dot of vectors (equal and unequal lengths: D19), matrix.vector, vector.matrix
     for (la, lb) in [(0, 0), (1, 1), (2, 2), (3, 3), (1, 3), (3, 1), (2, 3), (0, 1), (1, 0)]:
@@ -475,7 +483,7 @@ def api_cases(tier, rng):
         else:
             add(op, rand_spec(rng, (n,)), kb, rand_spec(rng, (n, m)), ka, tag="vec.mat")
     # ---- n-d tensordot over contraction-axis choices
-    n_td = 150 if quick else 1500
+    n_td = 110 if quick else 1500
     for _ in range(n_td):
         nda, ndb = rng.randint(1, 4), rng.randint(1, 4)
         k = rng.randint(0, min(nda, ndb, 2))
@@ -491,14 +499,10 @@ def api_cases(tier, rng):
             kb = "gcxs"
         neg = rng.random() < 0.3
         aa = [x - nda for x in axes_a] if neg else axes_a
-        # a COO . ndarray product whose free part of b is empty never returns (D3): not in the random stream
-        free_b = [shb[i] for i in range(ndb) if i not in axes_b]
-        if ka == "coo" and kb == "nd" and 0 in free_b and 0 not in sha:
-            kb = "coo"
         axes = k if (rng.random() < 0.2 and axes_a == list(range(nda - k, nda)) and axes_b == list(range(k))) else [aa, axes_b]
         add("tensordot", rand_spec(rng, sha), ka, rand_spec(rng, shb), kb, rt=rng.choice(RTS), axes=axes, tag="tensordot_nd", follow=False)
     # ---- matmul batch broadcasting (3-d / 4-d)
-    for _ in range(70 if quick else 600):
+    for _ in range(50 if quick else 600):
         nda, ndb = rng.randint(2, 4), rng.randint(2, 4)
         e = [1, 2, 3] if rng.random() < 0.8 else [0, 1, 2]
         m, n, p = rng.choice(e), rng.choice(e), rng.choice(e)
@@ -509,8 +513,6 @@ def api_cases(tier, rng):
         ka, kb = rng.choice(["coo", "gcxs", "nd"]), rng.choice(["coo", "gcxs", "nd"])
         if ka == "nd" and kb == "nd":
             ka = "coo"
-        if ka == "coo" and kb == "nd" and p == 0:
-            p = 1
         add(rng.choice(["matmul", "at"]), rand_spec(rng, ba + [m, n]), ka, rand_spec(rng, bb + [n, p]), kb, tag="matmul_batch", follow=False)
     # ---- einsum
     subs2 = [("ij,jk->ik", 2, 2), ("ij,kj->ik", 2, 2), ("ij,ij->", 2, 2), ("ij,ij->ij", 2, 2), ("i,i->", 1, 1), ("i,j->ij", 1, 1),
@@ -518,7 +520,7 @@ def api_cases(tier, rng):
              ("ab,cb->ca", 2, 2), ("aab,bc->ac", 3, 2)]
     subs1 = [("ii->i", 2), ("ii->", 2), ("ij->ji", 2), ("ij->i", 2), ("ijk->kji", 3), ("ijk->j", 3), ("iij->ij", 3), ("ij->", 2),
              ("...i->...", 3), ("i->i", 1), ("iji->j", 3)]
-    for _ in range(60 if quick else 500):
+    for _ in range(45 if quick else 500):
         sub, na, nb_ = rng.choice(subs2)
         lhs = sub.split("->")[0].split(",")
         e = [1, 2, 3] if rng.random() < 0.8 else [0, 1, 2]
@@ -535,7 +537,7 @@ def api_cases(tier, rng):
         if ka == "nd" and kb == "nd":
             kb = "coo"
         add("einsum", rand_spec(rng, sa), ka, rand_spec(rng, sb), kb, sub=sub, tag="einsum2", follow=False)
-    for _ in range(30 if quick else 250):
+    for _ in range(25 if quick else 250):
         sub, na = rng.choice(subs1)
         e = [1, 2, 3] if rng.random() < 0.8 else [0, 1, 2]
         sizes = {}
@@ -545,7 +547,7 @@ def api_cases(tier, rng):
         sa = pre + [sizes.setdefault(c, rng.choice(e)) for c in letters]
         add("einsum", rand_spec(rng, sa), rng.choice(["coo", "gcxs"]), None, None, sub=sub, tag="einsum1", follow=False)
     # ---- vecdot, kron, outer
-    for _ in range(50 if quick else 400):
+    for _ in range(35 if quick else 400):
         nd = rng.randint(1, 3)
         e = [1, 2, 3] if rng.random() < 0.8 else [0, 1, 2]
         sh = [rng.choice(e) for _ in range(nd)]
@@ -553,7 +555,7 @@ def api_cases(tier, rng):
         if ka == "nd" and kb == "nd":
             ka = "gcxs"
         add("vecdot", rand_spec(rng, sh), ka, rand_spec(rng, sh), kb, axis=rng.randrange(-nd, nd), tag="vecdot", follow=False)
-    for _ in range(50 if quick else 400):
+    for _ in range(35 if quick else 400):
         nda, ndb = rng.randint(1, 3), rng.randint(1, 3)
         e = [1, 2, 3] if rng.random() < 0.8 else [0, 1, 2]
         ka, kb = rng.choice(["coo", "gcxs", "nd", "csr"]), rng.choice(["coo", "gcxs", "nd", "csc"])
@@ -565,7 +567,7 @@ def api_cases(tier, rng):
             ndb = 2
         add("kron", rand_spec(rng, [rng.choice(e) for _ in range(nda)]), ka, rand_spec(rng, [rng.choice(e) for _ in range(ndb)]), kb,
             tag="kron", follow=False)
-    for _ in range(40 if quick else 300):
+    for _ in range(25 if quick else 300):
         nda, ndb = rng.randint(1, 2), rng.randint(1, 2)
         e = [1, 2, 3] if rng.random() < 0.8 else [0, 1, 2]
         ka, kb = rng.choice(["coo", "gcxs", "nd"]), rng.choice(["coo", "gcxs", "nd"])
@@ -592,8 +594,8 @@ def api_cases(tier, rng):
     dts = [("int32", "int64"), ("float64", "int64"), ("int64", "float32"), ("int8", "int16"), ("float32", "float32"),
            ("uint8", "int64"), ("bool", "int64"), ("complex128", "int64")]
     kps = [("coo", "coo"), ("g0", "g0"), ("coo", "nd"), ("nd", "g1")]
-    if quick:       # every dtype pair compiles its own kernels (seconds each): three pairs, rotating kinds
-        dts = rng.sample(dts, 3)
+    if quick:       # every dtype pair compiles its own kernels (seconds each): two pairs, rotating kinds
+        dts = rng.sample(dts, 2)
     for t, (dta, dtb) in enumerate(dts):
         for (ka, kb) in (kps if not quick else [kps[t % 4], kps[(t + 1) % 4]]):
             m, n, p = 2, 3, 2
@@ -645,6 +647,8 @@ def kernel_lit(case, r):
         a2 = [Bd[j * p + c] for c in range(p) for j in range(n)]
         inp = (f"(KinCooNd {vlist(case['rows'])} {vlist(case['cols'])} {vlist(case['data'])} "
                f"{dense_lit_flat([p, n], a2)} {vZ(m)} {vZ(p)})")
+    elif k == "csc_nd_sparse":
+        inp = f"(KinCscNdSparse {vZ(m)} {vZ(n)} {vZ(p)} {csr_lit(case['Ac'])} {dense_lit_flat([n, p], case['Bd'])})"
     else:
         inp = f"(KinSpec {dense_lit_flat([m, n], case['Ad'])} {dense_lit_flat([n, p], case['Bd'])})"
     return vpair(inp, impl)
@@ -710,29 +714,52 @@ def classify_api(case, code, r):
         if "csr" in (ka, kb) or "csc" in (ka, kb):
             if op in ("einsum", "vecdot", "outer"):
                 return "value", CL_SCIPY
+        if route_csc_nd_sparse(case):
+            return "value", CL_CSCCOUNT     # the uninitialised tail holds arbitrary indices: constructors reject them
         return "value", None
     if code == 13:
         return "value", None       # (D19, dot of 1-d operands of different lengths, was repaired: a recurrence is new)
     if code == 14:
-        if op == "tensordot" and case.get("rt"):
+        if op == "tensordot" and case.get("rt") and contracted_extent_zero(case):
             return "value", CL_SHORTCUT
         return "value", None
     if code == 15:
         g = r.get("r", {})
-        if g.get("k") == "gcxs":
-            if kb == "nd" or ka == "nd":
-                return "canonical_form", CL_CSCND
-            return "canonical_form", None      # (D8, csr @ csr, was repaired: a recurrence is new)
-        return "canonical_form", None
+        if g.get("k") == "gcxs" and route_csc_nd_sparse(case):
+            return "canonical_form", CL_CSCND
+        return "canonical_form", None      # (D8, csr @ csr, was repaired: a recurrence is new)
     if code == 16:
-        return "canonical_form", None
+        return "canonical_form", CL_EINSUM_ZEROS if op == "einsum" else None
     if code == 20:
+        if route_csc_nd_sparse(case):
+            return "value", CL_CSCCOUNT
         return "value", None
     if code == 22:
         return "representation", None      # Spec/NpDot.v disagrees with NumPy: the Spec is wrong, not the code
     if code == 30:
         return "representation", None
     return "value", None
+
+
+def contracted_extent_zero(case):
+    ax = case.get("axes")
+    sa = case["a"]["shape"]
+    if isinstance(ax, int):
+        dims = sa[len(sa) - ax:] if ax else []
+    else:
+        dims = [sa[x] for x in ax[0]]
+    return 0 in dims
+
+
+def route_csc_nd_sparse(case):
+    """2-d GCXS(compressed axis 1) @ ndarray, or ndarray @ GCXS(compressed axis 0), with a sparse result requested:
+    _dot runs _dot_csc_ndarray_type_sparse"""
+    ka, kb = case["kin"]
+    if case.get("rt") not in ("coo", "gcxs") or case["b"] is None:
+        return False
+    if len(case["a"]["shape"]) != 2 or len(case["b"]["shape"]) != 2:
+        return False
+    return (ka in ("g1", "csc") and kb == "nd") or (ka == "nd" and kb in ("g0", "csr"))
 
 
 def replay_api(case):
@@ -758,7 +785,7 @@ def campaign(build, tier, seed, report, budget=1):
         tags[k] = tags.get(k, 0) + n
 
     # -------- kernel level
-    kc = kernel_cases(tier, rng)
+    kc = kernel_cases(tier, rng, budget)
     kres = vlib.run_impl("props.c04", "impl_kernel", kc, workers=6, per_case_timeout=PER_CASE_TIMEOUT)
     cov["wall_kernel_impl_s"] = round(time.time() - t0, 1)
     klits = [kernel_lit(c, r) for c, r in zip(kc, kres, strict=True)]
@@ -772,18 +799,24 @@ def campaign(build, tier, seed, report, budget=1):
                        chunk=120, timeout=600)
     for i, code in kbad:
         c, r = kc[i], kres[i]
-        kind = {1: "representation", 2: "value", 3: "representation", 4: "representation", 5: "value"}[code]
-        viol.append({"property": "C04", "op": "kernel:" + c["k"], "kind": kind, "clause": None, "code": code,
+        kind = {1: "representation", 2: "value", 3: "representation", 4: "representation", 5: "value", 6: "value",
+                7: "canonical_form"}[code]
+        clause = {6: CL_CSCCOUNT, 7: CL_CSCND}.get(code)
+        tag("verdict/kernel:" + c["k"] + ":" + str(code))
+        viol.append({"property": "C04", "op": "kernel:" + c["k"], "kind": kind, "clause": clause, "code": code,
                      "what": {1: "kernel output differs from the model's (same dense meaning)",
                               2: "kernel output differs from the model's and from the Spec",
                               3: "_csr_csr_count_nnz differs from the model's pre-count",
                               4: "model output differs from the Spec (theorem instance fails)",
-                              5: "kernel output differs from the Spec"}[code],
+                              5: "kernel output differs from the Spec",
+                              6: "the pre-count exceeds the cells written (a sum cancelled to zero): data/indices end in "
+                                 "uninitialised memory and indptr does not describe the written cells",
+                              7: "row indices inside a column of the CSC result are not increasing"}[code],
                      "case": c, "impl": r, "replay_py": replay_kernel(c)})
     t_kernel = time.time() - t0
 
     # -------- API level
-    ac = api_cases(tier, rng)
+    ac = api_cases(tier, rng, budget)
     t1 = time.time()
     ares = vlib.run_impl("props.c04", "impl_api", ac, workers=6, per_case_timeout=PER_CASE_TIMEOUT)
     cov["wall_api_impl_s"] = round(time.time() - t1, 1)
@@ -824,12 +857,18 @@ def campaign(build, tier, seed, report, budget=1):
                        chunk=150, timeout=600)
     cov["wall_api_judge_s"] = round(time.time() - t2, 1)
     bad_main = {}
+    unpruned = []
     for j, code in abad:
         i, f = owners[j]
         c, r = ac[i], ares[i]
         if f is None:
             bad_main[i] = code
             kind, clause = classify_api(c, code, r)
+            if code == 16:
+                # correct values, canonical coordinates, but zeros are stored: C06's subject, recorded as a note
+                tag("note/explicit_zeros/" + c["op"])
+                unpruned.append(c["op"])
+                continue
             tag("verdict/" + API_CODES.get(code, str(code)) + ("/" + clause if clause else ""))
             viol.append({"property": "C04", "op": c["op"], "kind": kind, "clause": clause, "code": code,
                          "what": API_CODES.get(code, str(code)), "kinds": list(c["kin"]), "return_type": c.get("rt"),
@@ -851,6 +890,9 @@ def campaign(build, tier, seed, report, budget=1):
                      "case": {k: c[k] for k in ("op", "a", "ka", "b", "kb", "rt", "axes", "sub", "axis", "dta", "dtb")},
                      "slice": [f["lo"], f["hi"]], "impl": f["r"], "numpy": f["np"], "product": r.get("r"),
                      "replay_py": replay_api(c)})
+    if unpruned:
+        report["notes"].append(f"{len(unpruned)} results store explicit zeros (values and coordinates correct; canonical-form "
+                               f"property C06, not reported here): ops {sorted(set(unpruned))}")
     for i, got, want in dtype_viol:
         c = ac[i]
         tag("verdict/dtype")
